@@ -285,6 +285,8 @@ class Verifier:
                 fresh = getattr(val, "fresh", False)
                 val = ex.to_sv(val, td, st, r.node)
                 val.fresh = fresh
+            elif not isinstance(val, SV):
+                val = ex.to_sv(val, td, st, r.node)
             ctx.result = val
             for cl in k.ensures:
                 hz = []
@@ -295,6 +297,8 @@ class Verifier:
                         hz.append(z)
                 o = mk(cl.label, smt.lift(cl.fn(ctx)).z, "post")
                 o.pc = o.pc + hz  # each hint is proved separately (obligation above) before it is used
+                if cl.lemmas is not None:
+                    o.pc = o.pc + [smt.lift(x).z for x in cl.lemmas(ctx)]
                 out.append(o)
             for lab, excs, cond in k.must_raise:
                 out.append(mk(lab, z3.Not(smt.lift(cond(ctx)).z), "must-raise", excs=list(excs)))
